@@ -4,6 +4,7 @@ import (
 	"bufio"
 	"bytes"
 	"fmt"
+	"io"
 	"net"
 	"net/http"
 	"strings"
@@ -22,7 +23,7 @@ func init() {
 	core.Register(&core.Prop{
 		ID:    "C15",
 		Level: "exploration",
-		Rule: "three families: (a) a real Dialer against a real Upgrader over an in-memory duplex transport for all four EnableCompression pairs (complete), then generated sequences of EnableWriteCompression/SetCompressionLevel calls and messages in both directions with the wire watched for RSV1; " +
+		Rule: "three families: (a) a real Dialer against a real Upgrader over an in-memory duplex transport for all four EnableCompression pairs (complete), then generated sequences of EnableWriteCompression/SetCompressionLevel calls and messages in both directions (WriteMessage, writers closed by the application, writers left open for the next message, settings toggled while a writer is open) with the wire watched for RSV1; " +
 			"(b) raw client extension offers (absent, permessage-deflate with any parameters, other extensions first, several lines, quoted values) against the Upgrader; (c) scripted 101 replies with and without each no_context_takeover parameter, other extensions around, against the Dialer; " +
 			"'compresses' and 'accepts compressed' are observed behaviourally (RSV1 on the endpoint's wire; a compressed frame fed to its reader); distinct = hash of the case descriptor; non-trivial = compression was offered or announced",
 		Variants: core.PlainOnly,
@@ -33,7 +34,7 @@ func init() {
 			return 36000
 		},
 		Run:      runC15,
-		Required: []string{"pairs_connected", "messages_crossed", "rsv1_frames_seen", "server_offers_checked", "client_replies_checked"},
+		Required: []string{"pairs_connected", "messages_crossed", "rsv1_frames_seen", "server_offers_checked", "client_replies_checked", "writers_left_open_for_the_next_message", "compression_toggled_with_open_writer"},
 		Assumptions: []string{
 			"a client that did not offer permessage-deflate but is told by a (non-gorilla) server that it is in use is UNSPECIFIED",
 			"extension offers with quoting, upper case or malformed syntax are executed; only 'announce => offered and enabled' and 'compresses <=> announced' are demanded",
@@ -223,12 +224,44 @@ func c15PairOn(ctx *core.Ctx, out *core.Out, r *gen.R, idx int) {
 				}
 			}
 			p := r.Payload(r.Intn(gen.NPayloadClasses), r.BoundarySize(4096, 20000))
-			if err := dir.w.WriteMessage(1+r.Intn(2), p); err != nil {
-				fail("write-failed", fmt.Sprintf("%s: WriteMessage: %v", dir.name, err))
+			// how the application writes it: WriteMessage; a writer it closes; a writer it
+			// leaves open (the next message closes it, as documented); a writer during whose
+			// life the compression setting is toggled (the open message keeps the setting
+			// it was begun with)
+			style := r.Intn(6)
+			wasEnabled := dir.enabled
+			var err error
+			switch style {
+			case 0, 1, 2:
+				err = dir.w.WriteMessage(1+r.Intn(2), p)
+			default:
+				var w io.WriteCloser
+				w, err = dir.w.NextWriter(1 + r.Intn(2))
+				if err != nil {
+					break
+				}
+				if style == 5 {
+					dir.enabled = r.Bool()
+					dir.w.EnableWriteCompression(dir.enabled)
+					out.Count("compression_toggled_with_open_writer", 1)
+				}
+				for rest := p; len(rest) > 0 && err == nil; {
+					k := r.Range(1, len(rest))
+					_, err = w.Write(rest[:k])
+					rest = rest[k:]
+				}
+				if err == nil && (style != 4 || i == n-1) {
+					err = w.Close()
+				} else if err == nil {
+					out.Count("writers_left_open_for_the_next_message", 1)
+				}
+			}
+			if err != nil {
+				fail("write-failed", fmt.Sprintf("%s: writing message %d (style %d): %v", dir.name, i, style, err))
 				return
 			}
 			sent = append(sent, p)
-			expRSV = append(expRSV, agreed && dir.enabled)
+			expRSV = append(expRSV, agreed && wasEnabled)
 		}
 		for i, p := range sent {
 			_, got, err := dir.rd.ReadMessage()
